@@ -42,7 +42,9 @@ type Visit struct {
 
 type FuelExhausted struct{ Used int64 }
 
-func (f FuelExhausted) Error() string { return fmt.Sprintf("verifsched: fuel exhausted after %d ticks", f.Used) }
+func (f FuelExhausted) Error() string {
+	return fmt.Sprintf("verifsched: fuel exhausted after %d ticks", f.Used)
+}
 
 var (
 	mu       sync.Mutex
